@@ -845,6 +845,12 @@ for k in fails[:5]:
                   {"correspondence": "Model.Frame.mk_frame / get_timetrace / is_complete", "rows": rows,
                    "impl": {"accepted": ok, "ask": [t, r], "got": got, "complete": comp}}, failing_input_found=False)
 
+# ---- the glue model of the public functions (Model files added later, see manifest text) tied to the library on every run:
+#      inputs generated here, the library run on them, the model evaluated on the same inputs by vm_compute inside coqc
+import ties.tie_C15 as _tie_glue  # noqa: E402
+_tie_n = _tie_glue.run(chk, arim, rng, Q)
+chk.cov["glue_model_tie_comparisons"] = int(_tie_n or 0)
+
 chk.finish(
     evaluations=evaluations,
     distinct_nontrivial=len(nontrivial),
